@@ -17,7 +17,7 @@ from concurrent.futures import ThreadPoolExecutor
 
 import cast
 import cxx2c
-from common import CACHE, VERIF, Undecided, log, run, tree_hash, write_json
+from common import run_portfolio, CACHE, VERIF, Undecided, log, run, tree_hash, write_json
 
 CBMC_CHECKS = ["--bounds-check", "--pointer-check", "--div-by-zero-check", "--signed-overflow-check",
                "--undefined-shift-check", "--pointer-primitive-check"]
@@ -85,8 +85,29 @@ def work_dir(prop):
     return d
 
 
-def lower_unit(spec, prop):
-    """Dump the ASTs, lower the functions, compose <work>/<unit>.c.  Raises Undecided."""
+def _uncontracted(u, spec_text, harness_text):
+    """Referenced libCellML functions that are neither lowered, nor given a contract by the spec header, nor given a body by the
+    harness file: CBMC would treat them as returning anything and changing nothing."""
+    out = []
+    for cn in sorted(u.protos):
+        if cn in u.funcs or cn.endswith("__rec") or cn.startswith("V_"):
+            continue
+        if re.search(r"#\s*define\s+__FC_%s\b" % re.escape(cn), spec_text):
+            continue
+        if re.search(r"\b%s\s*\([^;{}]*\)\s*(?:__CPROVER_\w+\s*\(.*\)\s*)*\{" % re.escape(cn), harness_text):
+            continue
+        out.append(cn)
+    return out
+
+
+def lower_unit(spec, prop, known_uncontracted=None, known_functions=None):
+    """Dump the ASTs, lower the functions, compose <work>/<unit>.c.  Raises Undecided.
+    known_uncontracted: the callees that had neither contract nor body on the pinned tree (from the baseline).
+    known_functions: the functions the unit's translation units defined on the pinned tree.
+    A callee without contract or body that is new AND is a function that did not exist before (a helper extracted by a
+    refactoring) is lowered as well, so that the caller is still checked against the code that runs.  A new callee that is
+    an existing function (the code now calls something it did not call) stays unconstrained - an over-approximation - and
+    the unit is marked: a failing obligation then needs the native replay to count (b.new_unconstrained)."""
     b = Built()
     b.dir = os.path.join(work_dir(prop), spec.name)
     shutil.rmtree(b.dir, ignore_errors=True)
@@ -99,6 +120,31 @@ def lower_unit(spec, prop):
         u.add_tu(tus[t])
     for t, sig in spec.functions:
         u.lower_function(tus[t], sig)
+    spec_text = open(os.path.join(VERIF, spec.spec_header)).read() if spec.spec_header else ""
+    harness_text = open(os.path.join(VERIF, spec.harness_file)).read() if spec.harness_file else ""
+    b.auto_lowered = []
+    b.new_unconstrained = []
+    b.functions_defined = sorted(set(sg for t in tus.values() for sg in t.funcs))
+    if known_uncontracted is not None:
+        for _round in range(12):
+            new = [cn for cn in _uncontracted(u, spec_text, harness_text) if cn not in known_uncontracted and cn not in b.new_unconstrained]
+            if not new:
+                break
+            for cn in new:
+                sig = u.proto_sig.get(cn)
+                fd, ftu = None, None
+                for t in list(tus.values()):
+                    if sig and sig in t.funcs:
+                        fd, ftu = t.funcs[sig], t
+                        break
+                if fd is None or known_functions is None or sig in known_functions:
+                    b.new_unconstrained.append(cn)
+                    log("  [unit %s] new callee %s (an existing function) has no contract: unconstrained" % (spec.name, cn))
+                    continue
+                u.lower_function(ftu, fd)
+                b.auto_lowered.append(cn)
+                log("  [unit %s] new helper %s has no contract: lowered too" % (spec.name, cn))
+    b.uncontracted = _uncontracted(u, spec_text, harness_text)
     b.lowered = u
     text = u.emit()
     macros = sorted(set(re.findall(r"\b__(?:FC|LC)_[A-Za-z0-9_]+", text)))
@@ -291,12 +337,10 @@ def run_harness(built, h, canary=False):
             if ids:
                 base += ["--unwindset", ",".join(ids)]
     base += ["--object-bits", str(h.object_bits or 10)]
-    if h.backend == "z3":
-        base += ["--z3"]
-    elif h.backend == "cvc5":
-        base += ["--cvc5"]
-    elif h.backend == "kissat":
-        base += ["--external-sat-solver", "kissat"]
+    BE = {"z3": ["--z3"], "cvc5": ["--cvc5"], "kissat": ["--external-sat-solver", "kissat"], "sat": []}
+    backends = [x for x in h.backend.split("|") if x]
+    portfolio = backends[1:]          # "z3|cvc5": the same query on both, the first conclusive answer is taken
+    base += BE.get(backends[0], [])
     base += h.extra_cbmc
     cmd = base + ["--verbosity", "6"]
     if canary:
@@ -308,7 +352,16 @@ def run_harness(built, h, canary=False):
         else:
             cmd += ["--stop-on-fail"]
     r.cmds.append(" ".join(cmd))
-    rc, out, err, secs = run(cmd, timeout=h.timeout, mem_gb=h.mem_gb)
+    if portfolio:
+        alts = [cmd] + [[c for c in cmd if c not in BE[backends[0]]] + BE.get(b, []) for b in portfolio]
+        rc, out, err, secs, win = run_portfolio(alts, timeout=h.timeout, mem_gb=h.mem_gb,
+                                                conclusive=lambda rc_, out_: rc_ in (0, 10) and "VERIFICATION" in out_)
+        r.backend_used = backends[win] if win >= 0 else "/".join(backends)
+        if win > 0:
+            r.cmds[-1] = " ".join(alts[win])
+    else:
+        rc, out, err, secs = run(cmd, timeout=h.timeout, mem_gb=h.mem_gb)
+        r.backend_used = backends[0]
     r.solver_secs = secs
     r.secs = time.time() - t0
     with open(os.path.join(built.dir, tag + ".cbmc.txt"), "w") as f:
@@ -379,7 +432,7 @@ def _traces(built, h, r, base, tag):
         seen.add(k)
         todo.append(o)
     for o in todo[:4]:
-        if h.backend in ("z3", "cvc5"):
+        if h.backend.split("|")[0] in ("z3", "cvc5"):
             cmd = base + ["--trace", "--property", o["id"]]
             rc, out, err, secs = run(cmd, timeout=min(h.timeout, 300), mem_gb=h.mem_gb)
             ce = {}
